@@ -93,7 +93,7 @@ def broadcast_total(ctx, rep, rule):
                   trace(e.st))
     # the relay: for every nestable class co_shutdown resolves to the broadcast itself
     for cls in r.nestable:
-        sup = ctx.prog.supplier(cls, 'co_shutdown')
+        sup = ctx.prog.effective_supplier(cls, 'co_shutdown')
         rep.check(sup is r.BROADCAST, rule, "%s.co_shutdown is the broadcast (relay)" % cls.name,
                   "class " + cls.name, "%s.co_shutdown resolves to %s (bases: %s)"
                   % (cls.name, sup.qualname if sup else None, ", ".join(cls.base_names)),
@@ -289,13 +289,27 @@ def user_shutdown_unconditional(ctx, rep, rule):
         stored = {a.targets[0].attr for g in [cls.methods.get('__init__')] if g is not None
                   for a in walk_local(g.node) if isinstance(a, ast.Assign) and len(a.targets) == 1
                   and isinstance(a.targets[0], ast.Attribute)}
-        aws = [a for a in walk_local(f.node) if isinstance(a, ast.Await) and isinstance(a.value, ast.Attribute)
-               and isinstance(a.value.value, ast.Name) and a.value.value.id == 'self' and a.value.attr in stored]
+        # locals that only name the stored coroutine: `coshutdown = self.coshutdown`
+        alias = {}
+        for x in walk_local(f.node):
+            if isinstance(x, ast.Assign) and len(x.targets) == 1 and isinstance(x.targets[0], ast.Name) \
+                    and isinstance(x.value, ast.Attribute) and isinstance(x.value.value, ast.Name) \
+                    and x.value.value.id == 'self' and x.value.attr in stored:
+                alias[x.targets[0].id] = x.value.attr
+
+        def attr_of(e):
+            if isinstance(e, ast.Attribute) and isinstance(e.value, ast.Name) and e.value.id == 'self' \
+                    and e.attr in stored:
+                return e.attr
+            if isinstance(e, ast.Name) and e.id in alias:
+                return alias[e.id]
+            return None
+        aws = [a for a in walk_local(f.node) if isinstance(a, ast.Await) and attr_of(a.value)]
         if not aws:
             continue
         for a in aws:
             n += 1
-            attr = a.value.attr
+            attr = attr_of(a.value)
             guards = []
             node = a
             while node is not None and node is not f.node:
@@ -316,7 +330,9 @@ def user_shutdown_unconditional(ctx, rep, rule):
             bad = []
             for g in guards:
                 reads = {x.attr for x in ast.walk(g) if isinstance(x, ast.Attribute)} | \
-                        {x.func.attr for x in ast.walk(g) if isinstance(x, ast.Call) and isinstance(x.func, ast.Attribute)}
+                        {x.func.attr for x in ast.walk(g) if isinstance(x, ast.Call) and isinstance(x.func, ast.Attribute)} | \
+                        {alias.get(x.id, '<local %s>' % x.id) for x in ast.walk(g) if isinstance(x, ast.Name)
+                         and x.id not in ('self', 'None', 'True', 'False')}
                 if reads - {attr}:
                     bad.append(src(g))
             rep.check(not bad, rule, "%s:%d user shutdown coroutine awaited whenever it was given"
